@@ -1,5 +1,5 @@
 (* Proofs for C14 (model/XmlFetch.v against spec/ManifestSpec.v). *)
-From Cam Require Import XmlFetch ManifestSpec.
+From Cam Require Import XmlFetch ManifestSpec P_C06 P_C07.
 
 Lemma lossy_ascii bs : Forall (fun b => 0 <= b < 128) bs -> lossy bs = bs.
 Proof.
@@ -732,11 +732,57 @@ Qed.
 
 End Complete.
 
-(* ---- no panic against any device (lying, hostile), given that DeviceControl::read never panics ---- *)
+(* ---- no panic against any device (lying, hostile): DeviceControl::read never panics (P_C07) and
+   keeps the negotiated limits ------------------------------------------------------------------- *)
+Definition lim_ok (s : st) : Prop := c_max_ack (fst s) - 12 < 2 ^ 64.
+
+Lemma read_loop_keeps chunk : forall fuel addr remaining acc c w x c' w',
+  read_loop fuel addr remaining chunk acc (c, w) = (x, (c', w')) -> c_max_ack c' = c_max_ack c.
+Proof.
+  induction fuel as [|f IH]; intros addr remaining acc c w x c' w' E; cbn [read_loop] in E.
+  - unfold fail in E. apply pair_inj in E as [_ E]. apply pair_inj in E as [<- _]. reflexivity.
+  - destruct (remaining <=? 0).
+    { unfold ret in E. apply pair_inj in E as [_ E]. apply pair_inj in E as [<- _]. reflexivity. }
+    destruct (send_cmd_spec (CRead addr (Z.min chunk remaining)) c w) as [y [c1 [w1 [Hs [_ Hk]]]]].
+    unfold bindM at 1 in E. rewrite Hs in E.
+    assert (K : c_max_ack c1 = c_max_ack c).
+    { destruct y; [destruct Hk as (_ & _ & _ & _ & Hst); apply Hst|apply Hk|apply Hk]. }
+    destruct y as [a|e|]; try (apply pair_inj in E as [_ E]; apply pair_inj in E as [<- _]; exact K).
+    unfold bindM at 1 in E. unfold lift at 1 in E.
+    destruct (view_data a) as [data|e|]; try (apply pair_inj in E as [_ E]; apply pair_inj in E as [<- _]; exact K).
+    destruct (negb (zlen data =? Z.min chunk remaining)).
+    { unfold fail in E. apply pair_inj in E as [_ E]. apply pair_inj in E as [<- _]. exact K. }
+    rewrite (IH _ _ _ _ _ _ _ _ E). exact K.
+Qed.
+
+Lemma ctl_read_keeps a n c w x c' w' :
+  ctl_read a n (c, w) = (x, (c', w')) -> c_max_ack c' = c_max_ack c.
+Proof.
+  unfold ctl_read. unfold bindM at 1. unfold assert_open. cbn [fst].
+  destruct (c_opened c); [|intros E; apply pair_inj in E as [_ E]; apply pair_inj in E as [<- _]; reflexivity].
+  unfold bindM at 1. unfold verify_range.
+  destruct (2 ^ 64 <? a + n); [unfold fail; intros E; apply pair_inj in E as [_ E]; apply pair_inj in E as [<- _]; reflexivity|].
+  unfold ret at 1. unfold bindM at 1. unfold get_ctl. cbn [fst].
+  unfold bindM at 1. unfold lift at 1.
+  destruct (read_chunks_init a 0 (c_max_ack c));
+    try (intros E; apply pair_inj in E as [_ E]; apply pair_inj in E as [<- _]; reflexivity).
+  unfold bindM at 1. unfold lift at 1.
+  destruct (maximum_read_length (c_max_ack c)) as [chunk|e|];
+    try (intros E; apply pair_inj in E as [_ E]; apply pair_inj in E as [<- _]; reflexivity).
+  destruct (chunk =? 0); [unfold panic; intros E; apply pair_inj in E as [_ E]; apply pair_inj in E as [<- _]; reflexivity|].
+  apply read_loop_keeps.
+Qed.
+
+Lemma ctl_read_safe a n s r s' : lim_ok s -> ctl_read a n s = (r, s') -> r <> Panic /\ lim_ok s'.
+Proof.
+  destruct s as [c w], s' as [c' w']. unfold lim_ok. cbn [fst]. intros HL E.
+  destruct (ctl_read_total c w a n HL) as (x & s2 & E2 & Hnp & _). rewrite E in E2.
+  apply pair_inj in E2 as [<- _]. split; [exact Hnp|]. now rewrite (ctl_read_keeps _ _ _ _ _ _ _ E).
+Qed.
+
 Section NoPanic.
 Variable sha1 : list Z -> list Z.
 Variable unzip : list Z -> option (list (option (list Z))).
-Hypothesis RT : forall a n s, fst (ctl_read a n s) <> Panic.
 
 (* v was returned by some register read *)
 Definition seen (v : Z) : Prop := exists a n s0 s1, read_reg a n s0 = (Ok v, s1).
@@ -744,55 +790,66 @@ Definition absurd_size_seen : Prop := exists v, seen v /\ 2 ^ 63 <= v.
 Local Notation Bad := absurd_size_seen.
 
 Definition npq {A} (m : X A) (Q : A -> Prop) : Prop :=
-  forall xs r xs', m xs = (r, xs') -> (r = Panic -> Bad) /\ forall a, r = Ok a -> Q a.
+  forall xs r xs', lim_ok (snd xs) -> m xs = (r, xs') ->
+    lim_ok (snd xs') /\ (r = Panic -> Bad) /\ forall a, r = Ok a -> Q a.
 Definition mnpq {A} (m : M A) (Q : A -> Prop) : Prop :=
-  forall s r s', m s = (r, s') -> (r = Panic -> Bad) /\ forall a, r = Ok a -> Q a.
+  forall s r s', lim_ok s -> m s = (r, s') ->
+    lim_ok s' /\ (r = Panic -> Bad) /\ forall a, r = Ok a -> Q a.
 
 Lemma npq_ret {A} (a : A) (Q : A -> Prop) : Q a -> npq (xret a) Q.
 Proof.
-  intros HQ xs r xs' E. unfold xret in E. apply pair_inj in E as [<- <-].
-  split; [discriminate|]. intros b Hb. apply Ok_inj in Hb. now subst.
+  intros HQ xs r xs' HL E. unfold xret in E. apply pair_inj in E as [<- <-].
+  split; [exact HL|]. split; [discriminate|]. intros b Hb. apply Ok_inj in Hb. now subst.
 Qed.
 Lemma npq_fail {A} e (Q : A -> Prop) : npq (xfail e) Q.
-Proof. intros xs r xs' E. unfold xfail in E. apply pair_inj in E as [<- <-]. split; discriminate. Qed.
+Proof.
+  intros xs r xs' HL E. unfold xfail in E. apply pair_inj in E as [<- <-].
+  split; [exact HL|]. split; discriminate.
+Qed.
 Lemma npq_bind {A B} (m : X A) (f : A -> X B) (Q : A -> Prop) (R : B -> Prop) :
   npq m Q -> (forall a, Q a -> npq (f a) R) -> npq (xbind m f) R.
 Proof.
-  intros Hm Hf xs r xs' E. unfold xbind in E. destruct (m xs) as [[a|e|] xs1] eqn:Em.
-  - destruct (Hm _ _ _ Em) as (_ & HQ). eapply Hf; eauto.
-  - apply pair_inj in E as [<- <-]. split; discriminate.
-  - destruct (Hm _ _ _ Em) as (HP & _). apply pair_inj in E as [<- <-]. split; [intros _; now apply HP|discriminate].
+  intros Hm Hf xs r xs' HL E. unfold xbind in E. destruct (m xs) as [[a|e|] xs1] eqn:Em.
+  - destruct (Hm _ _ _ HL Em) as (HL1 & _ & HQ). eapply Hf; eauto.
+  - destruct (Hm _ _ _ HL Em) as (HL1 & _ & _). apply pair_inj in E as [<- <-].
+    split; [exact HL1|]. split; discriminate.
+  - destruct (Hm _ _ _ HL Em) as (HL1 & HP & _). apply pair_inj in E as [<- <-].
+    split; [exact HL1|]. split; [intros _; now apply HP|discriminate].
 Qed.
-Lemma npq_weaken {A} (m : X A) (Q : A -> Prop) : npq m Q -> npq m (fun _ => True).
-Proof. intros H xs r xs' E. destruct (H _ _ _ E). split; auto. Qed.
 
 Lemma mnpq_ret {A} (a : A) (Q : A -> Prop) : Q a -> mnpq (ret a) Q.
 Proof.
-  intros HQ s r s' E. unfold ret in E. apply pair_inj in E as [<- <-].
-  split; [discriminate|]. intros b Hb. apply Ok_inj in Hb. now subst.
+  intros HQ s r s' HL E. unfold ret in E. apply pair_inj in E as [<- <-].
+  split; [exact HL|]. split; [discriminate|]. intros b Hb. apply Ok_inj in Hb. now subst.
 Qed.
 Lemma mnpq_fail {A} e (Q : A -> Prop) : mnpq (fail e) Q.
-Proof. intros s r s' E. unfold fail in E. apply pair_inj in E as [<- <-]. split; discriminate. Qed.
+Proof.
+  intros s r s' HL E. unfold fail in E. apply pair_inj in E as [<- <-]. split; [exact HL|]. split; discriminate.
+Qed.
 Lemma mnpq_bind {A B} (m : M A) (f : A -> M B) (Q : A -> Prop) (R : B -> Prop) :
   mnpq m Q -> (forall a, Q a -> mnpq (f a) R) -> mnpq (bindM m f) R.
 Proof.
-  intros Hm Hf s r s' E. unfold bindM in E. destruct (m s) as [[a|e|] s1] eqn:Em.
-  - destruct (Hm _ _ _ Em) as (_ & HQ). eapply Hf; eauto.
-  - apply pair_inj in E as [<- <-]. split; discriminate.
-  - destruct (Hm _ _ _ Em) as (HP & _). apply pair_inj in E as [<- <-]. split; [intros _; now apply HP|discriminate].
+  intros Hm Hf s r s' HL E. unfold bindM in E. destruct (m s) as [[a|e|] s1] eqn:Em.
+  - destruct (Hm _ _ _ HL Em) as (HL1 & _ & HQ). eapply Hf; eauto.
+  - destruct (Hm _ _ _ HL Em) as (HL1 & _ & _). apply pair_inj in E as [<- <-].
+    split; [exact HL1|]. split; discriminate.
+  - destruct (Hm _ _ _ HL Em) as (HL1 & HP & _). apply pair_inj in E as [<- <-].
+    split; [exact HL1|]. split; [intros _; now apply HP|discriminate].
 Qed.
 
 Lemma mnpq_read a n : mnpq (ctl_read a n) (fun _ => True).
 Proof.
-  intros s r s' E. split; [|auto]. intros ->. exfalso. apply (RT a n s). now rewrite E.
+  intros s r s' HL E. destruct (ctl_read_safe _ _ _ _ _ HL E) as [Hnp HL'].
+  split; [exact HL'|]. split; [intros ->; now elim Hnp|auto].
 Qed.
 Lemma mnpq_reg a n : mnpq (read_reg a n) seen.
 Proof.
-  intros s r s' E. split.
-  - intros ->. exfalso. unfold read_reg, bindM in E.
-    destruct (ctl_read a n s) as [[d|e|] s1] eqn:Er; try (unfold ret in E; apply pair_inj in E as [E _]; discriminate).
-    apply (RT a n s). now rewrite Er.
-  - intros v ->. exists a, n, s, s'. exact E.
+  intros s r s' HL E. pose proof E as E0. unfold read_reg, bindM in E.
+  destruct (ctl_read a n s) as [[d|e|] s1] eqn:Er; destruct (ctl_read_safe _ _ _ _ _ HL Er) as [Hnp HL1].
+  - unfold ret in E. apply pair_inj in E as [<- <-]. split; [exact HL1|]. split; [discriminate|].
+    intros v Hv. apply Ok_inj in Hv. subst v. exists a, n, s, s1. exact E0.
+  - apply pair_inj in E as [<- <-]. split; [exact HL1|]. split; discriminate.
+  - now elim Hnp.
 Qed.
 Lemma mnpq_addr b o : mnpq (reg_addr b o) (fun v => v = b + o /\ b + o < 2 ^ 64).
 Proof.
@@ -801,21 +858,33 @@ Qed.
 Lemma mnpq_abrm : mnpq h_abrm (fun _ => True).
 Proof.
   unfold h_abrm. eapply mnpq_bind with (Q := fun _ => True).
-  - intros s r s' E. unfold get_ctl in E. apply pair_inj in E as [<- <-]. split; [discriminate|auto].
+  - intros s r s' HL E. unfold get_ctl in E. apply pair_inj in E as [<- <-].
+    split; [exact HL|]. split; [discriminate|auto].
   - intros c _. destruct (c_abrm c); [now apply mnpq_ret|].
     eapply mnpq_bind; [apply mnpq_reg|]. intros cap _.
     eapply mnpq_bind with (Q := fun _ => True); [|intros; now apply mnpq_ret].
-    intros s r s' E. unfold upd_ctl in E. apply pair_inj in E as [<- <-]. split; [discriminate|auto].
+    intros s r s' HL E. unfold upd_ctl in E. apply pair_inj in E as [<- <-].
+    split; [exact HL|]. split; [discriminate|auto].
 Qed.
 Lemma npq_lift {A} (m : M A) (Q : A -> Prop) : mnpq m Q -> npq (liftM m) Q.
 Proof.
-  intros Hm [x s] r xs' E. unfold liftM in E. destruct (m s) as [r1 s1] eqn:Em.
-  apply pair_inj in E as [<- <-]. exact (Hm _ _ _ Em).
+  intros Hm [x s] r xs' HL E. unfold liftM in E. destruct (m s) as [r1 s1] eqn:Em.
+  apply pair_inj in E as [<- <-]. exact (Hm _ _ _ HL Em).
 Qed.
-Lemma npq_state {A} (m : X A) : (forall xs, exists a xs', m xs = (Ok a, xs')) -> npq m (fun _ => True).
+Lemma npq_getx : npq get_x (fun _ => True).
 Proof.
-  intros H xs r xs' E. destruct (H xs) as (a & xs1 & E1). rewrite E1 in E. apply pair_inj in E as [<- <-].
-  split; [discriminate|auto].
+  intros xs r xs' HL E. unfold get_x in E. apply pair_inj in E as [<- <-].
+  split; [exact HL|]. split; [discriminate|auto].
+Qed.
+Lemma npq_set_mt a : npq (set_mt a) (fun _ => True).
+Proof.
+  intros [x s] r xs' HL E. unfold set_mt in E. apply pair_inj in E as [<- <-].
+  split; [exact HL|]. split; [discriminate|auto].
+Qed.
+Lemma npq_resize n : npq (resize_buffer n) (fun _ => True).
+Proof.
+  intros [x [c w]] r xs' HL E. unfold resize_buffer in E. apply pair_inj in E as [<- <-].
+  split; [exact HL|]. split; [discriminate|auto].
 Qed.
 
 Lemma npq_scan_entry ent nw : npq (scan_entry ent nw) (fun _ => True).
@@ -873,31 +942,31 @@ Proof.
   eapply npq_bind; [apply npq_lift, mnpq_addr|]. intros sa _.
   eapply npq_bind; [apply npq_lift, mnpq_reg|]. intros fs Hseen.
   destruct (negb _); [apply npq_fail|].
-  eapply npq_bind with (Q := fun _ => True); [apply npq_state; intros xs; exists (fst xs), xs; reflexivity|]. intros x _.
+  eapply npq_bind; [apply npq_getx|]. intros x _.
   destruct (Z.leb_spec (2 ^ 63) fs) as [Hbig|Hsmall].
-  - intros xs r xs' E. unfold xpanic in E. apply pair_inj in E as [<- <-].
-    split; [intros _; exists fs; auto|discriminate].
+  - intros xs r xs' HL E. unfold xpanic in E. apply pair_inj in E as [<- <-].
+    split; [exact HL|]. split; [intros _; exists fs; auto|discriminate].
   - eapply npq_bind; [apply npq_lift, mnpq_read|]. intros buf _.
-    eapply npq_bind with (Q := fun _ => True).
-    { apply npq_state. intros [x0 [c w]]. eexists; eexists; reflexivity. }
-    intros u _. eapply npq_bind; [apply npq_verify|]. intros u' _. apply npq_decode.
+    eapply npq_bind; [apply npq_resize|]. intros u _.
+    eapply npq_bind; [apply npq_verify|]. intros u' _. apply npq_decode.
 Qed.
 
 Lemma npq_manifest_table : npq manifest_table (fun _ => True).
 Proof.
   unfold manifest_table.
-  eapply npq_bind with (Q := fun _ => True); [apply npq_state; intros xs; exists (fst xs), xs; reflexivity|].
+  eapply npq_bind; [apply npq_getx|].
   intros x _. destruct (x_mt x); [now apply npq_ret|].
   eapply npq_bind; [apply npq_lift, mnpq_abrm|]. intros u _.
   eapply npq_bind; [apply npq_lift, mnpq_reg|]. intros a _.
-  eapply npq_bind with (Q := fun _ => True); [apply npq_state; intros [x0 s0]; eexists; eexists; reflexivity|].
+  eapply npq_bind; [apply npq_set_mt|].
   intros u' _. now apply npq_ret.
 Qed.
 
-Lemma genapi_no_panic xs : fst (genapi sha1 unzip xs) = Panic -> absurd_size_seen.
+Lemma genapi_no_panic xs :
+  c_max_ack (fst (snd xs)) - 12 < 2 ^ 64 -> fst (genapi sha1 unzip xs) = Panic -> absurd_size_seen.
 Proof.
-  intros H. destruct (genapi sha1 unzip xs) as [r xs'] eqn:E. cbn [fst] in H.
-  assert (N : npq (genapi sha1 unzip) (fun _ => True)); [|exact (proj1 (N _ _ _ E) H)].
+  intros HL H. destruct (genapi sha1 unzip xs) as [r xs'] eqn:E. cbn [fst] in H.
+  assert (N : npq (genapi sha1 unzip) (fun _ => True)); [|exact (proj1 (proj2 (N _ _ _ HL E)) H)].
   unfold genapi.
   eapply npq_bind; [apply npq_manifest_table|]. intros t _.
   eapply npq_bind; [apply npq_entries|]. intros [first n] Hb. cbn [fst snd] in *.
